@@ -94,12 +94,13 @@ CHECKS["C02"] = dict(
    design="§5 C02")
 CHECKS["C09"] = dict(
    text="Partial. Coq carries the bookkeeping of the generated C headers (Headers/Model.v: include sets, include-once expansion, declared-before-use "
-        "check; C09_check_composes, C09_uses_after_decls_ok) and the check is evaluated on the include graph parsed from the real headers of every run. "
+        "check; C09_check_composes, C09_uses_after_decls_ok, and the general C09_headers_declare_before_use: for every set of definitions with acyclic "
+        "by-value containment and arbitrary pointer / signature references, the include-once expansion of any header declares before it uses) and the check is evaluated on the include graph parsed from the real headers of every run. "
         "Whether output compiles is decided by the real toolchains on four corpora (generated grammar bridge, a bridge with cyclic references / "
         "namespaces / renames / keyword-named parameters, feature_tests, example): rustc on the macro expansion, gcc -std=c11 -fsyntax-only on each C "
         "header alone and all headers in random orders, g++ c++17 and c++20 likewise, node --check on every .mjs, include/import targets exist.",
-   note="Partial: the grammars of C/C++/JS/Rust are not modelled; the general declared-before-use theorem over all reference graphs is not proved "
-        "(evaluated per generated graph). Two recorded findings (known_findings.txt): keyword-escape collision, parameter named `this`.",
+   note="Partial: the grammars of C/C++/JS/Rust are not modelled (the theorem is about declaration order under include guards, the compilers "
+        "decide everything else). Two recorded findings (known_findings.txt): keyword-escape collision, parameter named `this`.",
    design="§5 C09")
 CHECKS["C14"] = dict(
    text="Partial. Collect/Model.v transcribes how Module::from_syn / File fold items into name-keyed BTreeMaps; C14_collect_lookup, "
@@ -142,7 +143,9 @@ CHECKS["C08"] = dict(
    text="Proof: Layout/Model.v transcribes js/layout.rs (struct_field_info, size/alignment/scalar counts, Option layout), byte-level reads/writes and "
         "the forcePadding logic; C08_offsets_are_reprC (offsets, size, alignment = the repr(C) rule, for all nested structs and field orders), "
         "C08_padding_typed_exact (typed padding = the gap to the next field / struct end, in units of the field's alignment; the run-time assertion "
-        "in layout.rs cannot fire), C08_size_multiple_of_align. Tied to the code by executing the generated JS (js.abi legacy and spec) in node "
+        "in layout.rs cannot fire), C08_size_multiple_of_align, C08_read_after_write (what _writeToArrayBuffer stores _fromFFI reads back, any nesting / "
+        "field order / surrounding memory), C08_write_in_bounds, C08_flat_js_is_documented (the legacy argument list the JS builds = the documented ABI "
+        "rule, for every struct without zero-sized members and outside the one excluded corner). Tied to the code by executing the generated JS (js.abi legacy and spec) in node "
         "against a mock wasm module: argument lists, bytes written, values read back from repr(C) bytes, receive-buffer size/alignment; each "
         "observation is compared with an independent python repr(C)/ABI-doc implementation and with the model in Coq.",
    note="No wasm32 Rust target in the sandbox: the legacy flattened argument list is checked against docs/wasm_abi_quirks.md, not rustc. Slices, "
